@@ -1,3 +1,621 @@
-//! C16 bounded native checks (not written yet)
+//! C16 bounded: "Deviations equal signed distance and aggregates track their contents" on the REAL code over
+//!  (a) SurfaceDeviationSet: every push history of length <= 5 over the 7 values {-1, -next_up(0.1), -0.1, 0, 0.1,
+//!      next_up(0.1), 1} (repeats = ties, one-ulp neighbours), started from default(), from new(vec![]) and from
+//!      new(first k items) for every k: after EVERY step max / min / symmetrical_zone_size are compared with the
+//!      brute-force extremes of everything held;
+//!  (b) tolerance maps: every ascending (repeats allowed) breakpoint table of length 0..=4 over {-1, 0, 0.5, 2, 3} with
+//!      one distinct zone per breakpoint, queried at every breakpoint exactly, its one-ulp neighbours, every midpoint,
+//!      below the first and beyond the last;
+//!  (c) PointCloud: every sequence of <= 3 operations among append (4 presence combinations) / merge (4 presence
+//!      combinations x {0, 2} points) / create_from_indices (3 index lists) from each of 12 starting clouds (try_new with
+//!      every presence combination x {0, 2} points, empty(..) with every combination), plus try_new over all 3x3x3
+//!      presence / length combinations, compared step by step with a three-array model;
+//!  (d) Distance::{new, value, reversed} on integer points with 9 directions (2D and 3D); point_curve2_deviation /
+//!      line_surface_deviations on a closed CCW square of side 4 and an open L-shaped polyline, and
+//!      Mesh::measure_point_deviation (both modes) on a 4x4x4 box: measured points on both sides of edge / face
+//!      interiors, off corners (and box edges) and beyond the ends of the open curve, at distances 1e-7, 1e-5, 1e-4,
+//!      1e-2 and 1, compared with a brute-force closest-point oracle.
 use super::Report;
-pub fn run() -> Option<Report> { None }
+use crate::common::{DiscreteDomain, DistMode, Interval, SurfacePoint};
+use crate::geom2::{Curve2, Point2, UnitVec2, Vector2};
+use crate::geom3::{Mesh, Point3, PointCloud, PointCloudFeatures, UnitVec3, Vector3};
+use crate::metrology::line_profiles::{line_surface_deviations, point_curve2_deviation};
+use crate::metrology::{
+    ConstantTolMap, DiscreteDomainTolMap, Distance2, Distance3, Measurement, SurfaceDeviation2, SurfaceDeviationSet2,
+    Tolerance, ToleranceMap,
+};
+
+fn next_up(x: f64) -> f64 { f64::from_bits(x.to_bits() + 1) } // x > 0
+fn next_down_pos(x: f64) -> f64 { f64::from_bits(x.to_bits() - 1) } // x > 0
+fn ulp_up(x: f64) -> f64 { if x > 0.0 { next_up(x) } else if x < 0.0 { -next_down_pos(-x) } else { f64::from_bits(1) } }
+fn ulp_down(x: f64) -> f64 { -ulp_up(-x) }
+/// lengths of a few ulps: absolute 1e-12 plus relative 1e-9
+fn near(a: f64, b: f64) -> bool { (a - b).abs() <= 1e-12 + 1e-9 * a.abs().max(b.abs()) }
+
+// ------------------------------------------------------------------------------------------------ (a) deviation sets
+fn dev(k: usize, d: f64) -> SurfaceDeviation2 {
+    // the reference point carries the insertion position, so that a reported extreme can be identified among ties
+    SurfaceDeviation2::new(SurfacePoint::new(Point2::new(k as f64, 0.0), UnitVec2::new_unchecked(Vector2::new(0.0, 1.0))), d)
+}
+
+fn check_set(r: &mut Report, s: &SurfaceDeviationSet2, held: &[f64], how: &dyn Fn() -> String) {
+    r.check(s.len() == held.len(), "set: holds exactly what was constructed and pushed (count)", how);
+    let mut same = s.len() == held.len();
+    if same { for i in 0..held.len() { same &= s[i].deviation == held[i] && s[i].surface.point.x == i as f64; } }
+    r.check(same, "set: holds exactly what was constructed and pushed, in order", how);
+    if held.is_empty() {
+        r.check(s.max().is_none(), "set: no maximum when nothing is held", how);
+        r.check(s.min().is_none(), "set: no minimum when nothing is held", how);
+        r.check(s.symmetrical_zone_size() == 0.0, "set: symmetric zone of nothing is 0", how);
+        return;
+    }
+    let bmax = held.iter().cloned().fold(f64::NEG_INFINITY, f64::max);
+    let bmin = held.iter().cloned().fold(f64::INFINITY, f64::min);
+    let babs = held.iter().cloned().fold(0.0f64, |a, v| a.max(v.abs()));
+    match s.max() {
+        None => r.check(false, "set: reports the true maximum of everything held", how),
+        Some(m) => {
+            r.check(m.deviation == bmax, "set: reports the true maximum of everything held", how);
+            let k = m.surface.point.x as usize;
+            r.check(k < held.len() && held[k] == m.deviation, "set: the reported maximum is one of the held items", how);
+        }
+    }
+    match s.min() {
+        None => r.check(false, "set: reports the true minimum of everything held", how),
+        Some(m) => {
+            r.check(m.deviation == bmin, "set: reports the true minimum of everything held", how);
+            let k = m.surface.point.x as usize;
+            r.check(k < held.len() && held[k] == m.deviation, "set: the reported minimum is one of the held items", how);
+        }
+    }
+    r.check(s.symmetrical_zone_size() == 2.0 * babs, "set: symmetric zone is twice the largest |deviation| held", how);
+}
+
+fn deviation_sets(r: &mut Report) {
+    let nu = next_up(0.1);
+    let vals = [-1.0, -nu, -0.1, 0.0, 0.1, nu, 1.0];
+    let nv = vals.len();
+    for n in 0..=5usize {
+        let total = nv.pow(n as u32);
+        for code in 0..total {
+            let mut h = Vec::with_capacity(n);
+            let mut c = code;
+            for _ in 0..n { h.push(vals[c % nv]); c /= nv; }
+            // start: None = default(); Some(k) = new(first k items)
+            let mut starts: Vec<Option<usize>> = vec![None];
+            for k in 0..=n { starts.push(Some(k)); }
+            for st in starts {
+                r.case();
+                let k0 = st.unwrap_or(0);
+                let mut s = match st {
+                    None => SurfaceDeviationSet2::default(),
+                    Some(k) => SurfaceDeviationSet2::new((0..k).map(|i| dev(i, h[i])).collect()),
+                };
+                for step in k0..=n {
+                    let how = || format!("{} then push {:?} (history {:?}, checked after {} items)",
+                        match st { None => "default()".to_string(), Some(k) => format!("new({:?})", &h[..k]) }, &h[k0..step], h, step);
+                    check_set(r, &s, &h[..step], &how);
+                    if step < n {
+                        // alternate the two push entry points
+                        if step % 2 == 0 { s.push(dev(step, h[step])); } else { let d = dev(step, h[step]); s.push_new(d.surface, d.deviation); }
+                    }
+                }
+            }
+        }
+    }
+}
+
+// ------------------------------------------------------------------------------------------------ (b) tolerance maps
+fn tolerance_maps(r: &mut Report) {
+    let pool = [-1.0, 0.0, 0.5, 2.0, 3.0];
+    // every non-decreasing table of length 0..=4 over the pool
+    let mut tables: Vec<Vec<f64>> = vec![vec![]];
+    let mut frontier: Vec<Vec<usize>> = vec![vec![]];
+    for _ in 0..4 {
+        let mut next = vec![];
+        for t in frontier.iter() {
+            let lo = t.last().cloned().unwrap_or(0);
+            for j in lo..pool.len() { let mut u = t.clone(); u.push(j); next.push(u); }
+        }
+        for t in next.iter() { tables.push(t.iter().map(|&j| pool[j]).collect()); }
+        frontier = next;
+    }
+    let zone = |i: usize| Tolerance::new_unchecked(-(i as f64) - 1.0, i as f64 + 0.5);
+    for t in tables.iter() {
+        let n = t.len();
+        let domain = if n == 0 { DiscreteDomain::default() } else {
+            match DiscreteDomain::try_from(t.clone()) { Ok(d) => d, Err(_) => { r.check(false, "tolmap: an ascending finite table is a valid domain", || format!("{:?}", t)); continue; } }
+        };
+        // one zone per breakpoint is required
+        if n > 0 {
+            let short: Vec<Tolerance> = (0..n - 1).map(zone).collect();
+            r.check(DiscreteDomainTolMap::try_new(domain.clone(), short).is_err(), "tolmap: a zone list shorter than the table is rejected", || format!("{:?}", t));
+        }
+        let long: Vec<Tolerance> = (0..n + 1).map(zone).collect();
+        r.check(DiscreteDomainTolMap::try_new(domain.clone(), long).is_err(), "tolmap: a zone list longer than the table is rejected", || format!("{:?}", t));
+        let map = match DiscreteDomainTolMap::try_new(domain, (0..n).map(zone).collect()) {
+            Ok(m) => m,
+            Err(_) => { r.check(false, "tolmap: one zone per breakpoint is accepted", || format!("{:?}", t)); continue; }
+        };
+        r.check(map.domain.values() == &t[..] && map.tol_zones.len() == n, "tolmap: construction keeps table and zones", || format!("{:?}", t));
+        let mut xs: Vec<f64> = vec![-5.0, 10.0, 0.25];
+        for (i, &b) in t.iter().enumerate() {
+            xs.push(b); xs.push(ulp_up(b)); xs.push(ulp_down(b));
+            if i + 1 < n { xs.push(0.5 * (b + t[i + 1])); }
+        }
+        if n > 0 { xs.push(t[0] - 1.0); xs.push(t[n - 1] + 1.0); }
+        for &x in xs.iter() {
+            r.case();
+            let how = || format!("breakpoints {:?} (zone i = [-(i+1), i+0.5]), get({:?})", t, x);
+            let got = map.get(x);
+            // the greatest breakpoint not above x (its value; with repeated breakpoints any of their zones)
+            let mut best: Option<f64> = None;
+            for &b in t.iter() { if b <= x { best = Some(match best { Some(c) if c > b => c, _ => b }); } }
+            match best {
+                None => r.check(got.is_none(), "tolmap: no zone below the first breakpoint (or on an empty table)", how),
+                Some(bv) => match got {
+                    None => r.check(false, "tolmap: zone of the greatest breakpoint not above x", how),
+                    Some(z) => {
+                        let ok = (0..n).any(|i| t[i] == bv && z.lower == zone(i).lower && z.upper == zone(i).upper);
+                        if x > t[n - 1] {
+                            r.check(ok, "tolmap: the last zone beyond the end", how);
+                        } else if x == bv {
+                            r.check(ok, "tolmap: exactly on a breakpoint the zone of that breakpoint", how);
+                        } else {
+                            r.check(ok, "tolmap: zone of the greatest breakpoint not above x", how);
+                        }
+                    }
+                },
+            }
+        }
+    }
+    // the constant map returns its zone everywhere
+    let c = ConstantTolMap::new(zone(7));
+    for x in [-1e9, -1.0, 0.0, 2.5, 1e9] {
+        r.case();
+        let z = c.get(x);
+        r.check(matches!(z, Some(z) if z.lower == zone(7).lower && z.upper == zone(7).upper), "tolmap: a constant map returns its zone for every x", || format!("x = {:?}", x));
+    }
+}
+
+// ------------------------------------------------------------------------------------------------ (c) point clouds
+#[derive(Clone, Debug, PartialEq)]
+struct Model { p: Vec<[f64; 3]>, n: Option<Vec<[f64; 3]>>, c: Option<Vec<[u8; 3]>> }
+
+fn label_point(k: usize) -> Point3 { Point3::new(k as f64, 0.5 * k as f64, -(k as f64)) }
+fn label_normal(k: usize) -> UnitVec3 { UnitVec3::new_normalize(Vector3::new(1.0, k as f64, 2.0)) }
+fn label_color(k: usize) -> [u8; 3] { [(k % 251) as u8, ((k / 251) % 251) as u8, 7] }
+fn arr(n: &UnitVec3) -> [f64; 3] { [n.x, n.y, n.z] }
+
+fn observe(pc: &PointCloud) -> Model {
+    Model {
+        p: pc.points().iter().map(|p| [p.x, p.y, p.z]).collect(),
+        n: pc.normals().map(|v| v.iter().map(arr).collect()),
+        c: pc.colors().map(|v| v.to_vec()),
+    }
+}
+
+/// build `count` labelled elements starting at label `from`
+fn make(from: usize, count: usize, hn: bool, hc: bool) -> (Vec<Point3>, Option<Vec<UnitVec3>>, Option<Vec<[u8; 3]>>, Model) {
+    let p: Vec<Point3> = (from..from + count).map(label_point).collect();
+    let n: Option<Vec<UnitVec3>> = if hn { Some((from..from + count).map(label_normal).collect()) } else { None };
+    let c: Option<Vec<[u8; 3]>> = if hc { Some((from..from + count).map(label_color).collect()) } else { None };
+    let m = Model { p: p.iter().map(|q| [q.x, q.y, q.z]).collect(), n: n.as_ref().map(|v| v.iter().map(arr).collect()), c: c.clone() };
+    (p, n, c, m)
+}
+
+fn lengths_equal(r: &mut Report, pc: &PointCloud, how: &dyn Fn() -> String) {
+    let l = pc.points().len();
+    r.check(pc.len() == l && pc.is_empty() == (l == 0), "cloud: len / is_empty report the number of points", how);
+    r.check(pc.normals().map_or(true, |v| v.len() == l), "cloud: normals, when present, are as long as points", how);
+    r.check(pc.colors().map_or(true, |v| v.len() == l), "cloud: colours, when present, are as long as points", how);
+}
+
+#[derive(Clone, Copy, Debug)]
+enum Op { Append(bool, bool), Merge(bool, bool, usize), Select(usize) }
+
+fn apply(r: &mut Report, pc: &mut PointCloud, m: &mut Model, op: Op, label: &mut usize, how: &dyn Fn() -> String) {
+    let before = observe(pc);
+    r.check(before == *m, "cloud: the three arrays hold exactly the elements added so far", how);
+    match op {
+        Op::Append(hn, hc) => {
+            let k = *label; *label += 1;
+            let res = pc.append(label_point(k), if hn { Some(label_normal(k)) } else { None }, if hc { Some(label_color(k)) } else { None });
+            let accept = m.n.is_some() == hn && m.c.is_some() == hc;
+            r.check(res.is_ok() == accept, "cloud: append is accepted exactly when normal / colour presence matches the cloud", how);
+            if res.is_ok() {
+                let q = label_point(k);
+                m.p.push([q.x, q.y, q.z]);
+                if hn { if let Some(v) = m.n.as_mut() { v.push(arr(&label_normal(k))); } }
+                if hc { if let Some(v) = m.c.as_mut() { v.push(label_color(k)); } }
+                r.check(observe(pc) == *m || !accept, "cloud: an accepted append adds exactly the given point, normal and colour at the end", how);
+                if !accept { *m = observe(pc); }
+            } else {
+                r.check(observe(pc) == before, "cloud: a rejected append changes nothing", how);
+            }
+        }
+        Op::Merge(hn, hc, cnt) => {
+            let (p, n, c, om) = make(*label, cnt, hn, hc);
+            *label += cnt;
+            let other = match PointCloud::try_new(p, n, c) { Ok(o) => o, Err(_) => { r.check(false, "cloud: try_new accepts arrays of equal length", how); return; } };
+            let res = pc.merge(other);
+            let accept = m.n.is_some() == hn && m.c.is_some() == hc;
+            r.check(res.is_ok() == accept, "cloud: merge is accepted exactly when both clouds agree on the presence of normals and colours", how);
+            if res.is_ok() {
+                m.p.extend(om.p.iter().cloned());
+                if let (Some(a), Some(b)) = (m.n.as_mut(), om.n.as_ref()) { a.extend(b.iter().cloned()); }
+                if let (Some(a), Some(b)) = (m.c.as_mut(), om.c.as_ref()) { a.extend(b.iter().cloned()); }
+                r.check(observe(pc) == *m || !accept, "cloud: an accepted merge appends exactly the other cloud's elements, in order", how);
+                if !accept { *m = observe(pc); }
+            } else {
+                r.check(observe(pc) == before, "cloud: a rejected merge changes nothing", how);
+            }
+        }
+        Op::Select(kind) => {
+            let l = m.p.len();
+            let idx: Vec<usize> = match kind { 0 => vec![], 1 => if l > 0 { vec![0] } else { vec![] }, _ => if l > 0 { vec![l - 1, 0, l - 1, l / 2] } else { vec![] } };
+            // a cloud that already broke the invariant may panic inside create_from_indices: reported by the clauses above
+            if !(m.n.as_ref().map_or(true, |v| v.len() == l) && m.c.as_ref().map_or(true, |v| v.len() == l)) { return; }
+            let sel = pc.create_from_indices(&idx);
+            let want = Model {
+                p: idx.iter().map(|&i| m.p[i]).collect(),
+                n: m.n.as_ref().map(|v| idx.iter().map(|&i| v[i]).collect()),
+                c: m.c.as_ref().map(|v| idx.iter().map(|&i| v[i]).collect()),
+            };
+            r.check(observe(&sel) == want, "cloud: an index selection holds exactly the selected elements of every present array", how);
+            r.check(observe(pc) == before, "cloud: an index selection leaves the source unchanged", how);
+            *pc = sel; *m = want;
+        }
+    }
+    lengths_equal(r, pc, how);
+}
+
+fn point_clouds(r: &mut Report) {
+    // try_new over every presence / length combination (0 = absent, 1 = present with the right length, 2 = present, one
+    // short, 3 = present, one long)
+    for np in [0usize, 1, 2] {
+        for kn in 0..4usize { for kc in 0..4usize {
+            let len_of = |k: usize| match k { 1 => Some(np), 2 => if np > 0 { Some(np - 1) } else { None }, 3 => Some(np + 1), _ => None };
+            if (kn == 2 || kc == 2) && np == 0 { continue; }
+            r.case();
+            let p: Vec<Point3> = (0..np).map(label_point).collect();
+            let n: Option<Vec<UnitVec3>> = if kn == 0 { None } else { Some((0..len_of(kn).unwrap()).map(label_normal).collect()) };
+            let c: Option<Vec<[u8; 3]>> = if kc == 0 { None } else { Some((0..len_of(kc).unwrap()).map(label_color).collect()) };
+            let how = || format!("try_new({} points, normals {:?}, colours {:?})", np, n.as_ref().map(|v| v.len()), c.as_ref().map(|v| v.len()));
+            let accept = kn <= 1 && kc <= 1;
+            let want = Model { p: p.iter().map(|q| [q.x, q.y, q.z]).collect(), n: n.as_ref().map(|v| v.iter().map(arr).collect()), c: c.clone() };
+            match PointCloud::try_new(p.clone(), n.clone(), c.clone()) {
+                Ok(pc) => {
+                    r.check(accept, "cloud: try_new rejects a normal / colour array whose length differs from points", how);
+                    if accept { r.check(observe(&pc) == want, "cloud: try_new keeps the given arrays", how); }
+                    lengths_equal(r, &pc, &how);
+                }
+                Err(_) => r.check(!accept, "cloud: try_new accepts arrays of equal length", how),
+            }
+        } }
+    }
+    // operation sequences
+    let mut ops: Vec<Op> = vec![];
+    for hn in [false, true] { for hc in [false, true] { ops.push(Op::Append(hn, hc)); } }
+    for hn in [false, true] { for hc in [false, true] { for cnt in [0usize, 2] { ops.push(Op::Merge(hn, hc, cnt)); } } }
+    for k in 0..3 { ops.push(Op::Select(k)); }
+    let no = ops.len();
+    for start in 0..12usize {
+        let (hn, hc) = ((start & 1) != 0, (start & 2) != 0);
+        let kind = start / 4; // 0: try_new with 0 points, 1: try_new with 2 points, 2: empty(hn, hc)
+        for len in 0..=3usize {
+            for code in 0..no.pow(len as u32) {
+                r.case();
+                let mut seq = vec![]; let mut c = code;
+                for _ in 0..len { seq.push(ops[c % no]); c /= no; }
+                let mut label = 0usize;
+                let (mut pc, mut m) = if kind == 2 {
+                    (PointCloud::empty(hn, hc), Model { p: vec![], n: if hn { Some(vec![]) } else { None }, c: if hc { Some(vec![]) } else { None } })
+                } else {
+                    let cnt = if kind == 0 { 0 } else { 2 };
+                    let (p, n, c, m) = make(0, cnt, hn, hc);
+                    label = cnt;
+                    match PointCloud::try_new(p, n, c) { Ok(pc) => (pc, m), Err(_) => { r.check(false, "cloud: try_new accepts arrays of equal length", || format!("start {}", start)); continue; } }
+                };
+                let startname = match kind { 0 => "try_new(0 points", 1 => "try_new(2 points", _ => "empty(" };
+                for (i, &op) in seq.iter().enumerate() {
+                    let how = || format!("{}, normals: {}, colours: {}) then {:?} (failing at operation #{})", startname, hn, hc, seq, i + 1);
+                    apply(r, &mut pc, &mut m, op, &mut label, &how);
+                }
+                let how = || format!("{}, normals: {}, colours: {}) then {:?} (final state)", startname, hn, hc, seq);
+                r.check(observe(&pc) == m, "cloud: the three arrays hold exactly the elements added so far", how);
+                lengths_equal(r, &pc, &how);
+            }
+        }
+    }
+}
+
+// ------------------------------------------------------------------------------------------------ (d) distances
+fn distances(r: &mut Report) {
+    // 3D
+    let pts3 = [Point3::new(0.0, 0.0, 0.0), Point3::new(1.0, 0.0, 0.0), Point3::new(-2.0, 3.0, 1.0), Point3::new(4.0, -1.0, 2.0), Point3::new(0.5, 0.25, -8.0)];
+    let dirs3 = [Vector3::new(1.0, 0.0, 0.0), Vector3::new(0.0, -1.0, 0.0), Vector3::new(0.0, 0.0, 1.0), Vector3::new(0.6, 0.8, 0.0), Vector3::new(0.0, -0.6, 0.8),
+        Vector3::new(1.0, 1.0, 1.0), Vector3::new(-1.0, 2.0, -2.0), Vector3::new(3.0, 0.0, -4.0), Vector3::new(-1.0, -1.0, 0.0)];
+    for a in pts3.iter() { for b in pts3.iter() {
+        for k in 0..=dirs3.len() {
+            let dir = if k == 0 { None } else { Some(UnitVec3::new_normalize(dirs3[k - 1])) };
+            if dir.is_none() && a == b { continue; } // no direction from a to a
+            r.case();
+            let how = || format!("Distance3::new({:?}, {:?}, {:?})", a.coords.as_slice(), b.coords.as_slice(), dir.map(|d| arr(&d)));
+            let d = Distance3::new(*a, *b, dir);
+            let w = b - a;
+            r.check(d.a == *a && d.b == *b, "distance: keeps its end points", how);
+            match dir {
+                Some(u) => r.check(d.direction == u, "distance: keeps the given direction", how),
+                None => r.check(near((d.direction.into_inner() * w.norm() - w).norm(), 0.0) && near(d.value(), w.norm()),
+                                "distance: the default direction points from a to b, the value is the full distance", how),
+            }
+            let u = d.direction.into_inner();
+            let proj = u.x * w.x + u.y * w.y + u.z * w.z;
+            r.check(near(d.value(), proj), "distance: value equals the projection of b-a on the direction", how);
+            let rev = d.reversed();
+            r.check(rev.a == *b && rev.b == *a, "distance: reversal swaps the end points", how);
+            r.check(near((rev.direction.into_inner() + u).norm(), 0.0), "distance: reversal flips the direction", how);
+            r.check(near(rev.value(), d.value()), "distance: value is unchanged by reversal", how);
+            r.check(near(rev.reversed().value(), d.value()) && rev.reversed().a == *a, "distance: reversing twice gives the original", how);
+            let c = d.center();
+            r.check(near((c.point - a).norm(), (c.point - b).norm()) && near((c.point - a).norm() + (c.point - b).norm(), w.norm()) && c.normal == d.direction,
+                    "distance: center is the mid point with the distance's direction", how);
+        }
+    } }
+    // 2D
+    let pts2 = [Point2::new(0.0, 0.0), Point2::new(3.0, -4.0), Point2::new(-1.0, 0.5), Point2::new(2.0, 2.0)];
+    let dirs2 = [Vector2::new(1.0, 0.0), Vector2::new(0.0, -1.0), Vector2::new(0.6, 0.8), Vector2::new(-1.0, 1.0), Vector2::new(-5.0, -12.0)];
+    for a in pts2.iter() { for b in pts2.iter() {
+        for k in 0..=dirs2.len() {
+            let dir = if k == 0 { None } else { Some(UnitVec2::new_normalize(dirs2[k - 1])) };
+            if dir.is_none() && a == b { continue; }
+            r.case();
+            let how = || format!("Distance2::new({:?}, {:?}, {:?})", a.coords.as_slice(), b.coords.as_slice(), dir.map(|d| [d.x, d.y]));
+            let d = Distance2::new(*a, *b, dir);
+            let w = b - a;
+            let u = d.direction.into_inner();
+            r.check(near(d.value(), u.x * w.x + u.y * w.y), "distance: value equals the projection of b-a on the direction", how);
+            if dir.is_none() { r.check(near(d.value(), w.norm()), "distance: the default direction points from a to b, the value is the full distance", how); }
+            let rev = d.reversed();
+            r.check(rev.a == *b && rev.b == *a, "distance: reversal swaps the end points", how);
+            r.check(near(rev.value(), d.value()), "distance: value is unchanged by reversal", how);
+        }
+    } }
+}
+
+// ------------------------------------------------------------------------------------------------ (d) curve deviations
+const DISTS: [f64; 5] = [1e-7, 1e-5, 1e-4, 1e-2, 1.0];
+
+/// brute force: closest point of the polyline to p, its distance, and the indices of the edges attaining it
+fn closest_on_polyline(v: &[Point2], p: &Point2) -> (Point2, f64, Vec<usize>) {
+    let mut best = f64::INFINITY; let mut bp = v[0]; let mut ds = vec![];
+    for i in 0..v.len() - 1 {
+        let e = v[i + 1] - v[i];
+        let t = ((p - v[i]).dot(&e) / e.dot(&e)).clamp(0.0, 1.0);
+        let q = v[i] + e * t;
+        let d = (p - q).norm();
+        ds.push(d);
+        if d < best { best = d; bp = q; }
+    }
+    let edges = (0..ds.len()).filter(|&i| ds[i] <= best + 1e-13).collect();
+    (bp, best, edges)
+}
+
+/// kind: 0 = off the interior of an edge along its normal, 1 = off a vertex / beyond an end
+fn check_deviation(r: &mut Report, name: &str, verts: &[Point2], dv: &SurfaceDeviation2, p: &Point2, kind: u8, d_nom: f64, via: &str) {
+    let how = || format!("{} [{}], measured point ({:?}, {:?}) (nominal offset {:?}) via {}: reference ({:?}, {:?}), direction ({:?}, {:?}), value {:?}",
+        name, verts.iter().map(|q| format!("({},{})", q.x, q.y)).collect::<Vec<_>>().join(" "), p.x, p.y, d_nom, via,
+        dv.surface.point.x, dv.surface.point.y, dv.surface.normal.x, dv.surface.normal.y, dv.deviation);
+    let (cp, dist, edges) = closest_on_polyline(verts, p);
+    r.check(near((dv.surface.point - cp).norm(), 0.0), "curve deviation: the reference point is the closest point of the nominal curve", how);
+    r.check(near(dv.surface.normal.norm(), 1.0), "curve deviation: the direction is a unit vector", how);
+    // the code deliberately measures along the curve normal when the measured point is within 1e-6 of the curve: off a
+    // vertex this differs from the closest distance by less than 1e-6 (props/C16.json not_claimed)
+    let coincident = dist < 1e-6 && kind == 1;
+    if coincident {
+        r.check((dv.deviation.abs() - dist).abs() < 1e-6, "curve deviation: within 1e-6 of a vertex the magnitude is within 1e-6 of the closest distance", how);
+    } else {
+        r.check(near(dv.deviation.abs(), dist), "curve deviation: magnitude equals the closest distance", how);
+        let rec = dv.surface.point + dv.surface.normal.into_inner() * dv.deviation;
+        r.check(near((rec - p).norm(), 0.0), "curve deviation: reference + direction * value reconstructs the measured point", how);
+        r.check(near((dv.actual_point() - p).norm(), 0.0), "curve deviation: actual_point() reconstructs the measured point", how);
+    }
+    // side of the outward normal (edge direction rotated by -90 degrees) of every edge attaining the closest distance
+    let w = p - cp;
+    let mut sides = vec![];
+    for &i in edges.iter() {
+        let e = (verts[i + 1] - verts[i]).normalize();
+        let n = Vector2::new(e.y, -e.x);
+        sides.push(w.dot(&n));
+    }
+    let tiny = 1e-9 * dist;
+    if sides.iter().all(|&s| s > tiny) { r.check(dv.deviation > 0.0, "curve deviation: positive on the outward-normal side", how); }
+    if sides.iter().all(|&s| s < -tiny) { r.check(dv.deviation < 0.0, "curve deviation: negative on the side opposite to the normal", how); }
+}
+
+fn curve_deviations(r: &mut Report) {
+    let sq = [Point2::new(0.0, 0.0), Point2::new(4.0, 0.0), Point2::new(4.0, 4.0), Point2::new(0.0, 4.0), Point2::new(0.0, 0.0)];
+    let open = [Point2::new(0.0, 0.0), Point2::new(4.0, 0.0), Point2::new(4.0, 4.0)];
+    let unit = |x: f64, y: f64| Vector2::new(x, y).normalize();
+    for (name, verts) in [("closed CCW square", &sq[..]), ("open polyline", &open[..])] {
+        let curve = match Curve2::from_points(verts, 1e-6, false) { Ok(c) => c, Err(_) => { r.check(false, "curve deviation: the nominal curve can be built", || name.to_string()); continue; } };
+        let closed = verts.len() == 5;
+        // measured points: (point, kind, nominal offset)
+        let mut pts: Vec<(Point2, u8, f64)> = vec![];
+        for i in 0..verts.len() - 1 {
+            let e = (verts[i + 1] - verts[i]).normalize();
+            let n = Vector2::new(e.y, -e.x);
+            for f in [0.375, 0.5] {
+                let foot = verts[i] + (verts[i + 1] - verts[i]) * f;
+                for &d in DISTS.iter() { for s in [1.0, -1.0] { pts.push((foot + n * (d * s), 0, d)); } }
+            }
+        }
+        // off vertices: directions inside the outer normal cone of the vertex (and, for the ends of the open curve, all
+        // around the end: tangent, both sides)
+        let mut corner_dirs: Vec<(Point2, Vec<Vector2>)> = vec![];
+        if closed {
+            corner_dirs.push((sq[0], vec![unit(-1.0, -1.0), unit(-0.6, -0.8), unit(-0.8, -0.6)]));
+            corner_dirs.push((sq[1], vec![unit(1.0, -1.0), unit(0.6, -0.8), unit(0.8, -0.6)]));
+            corner_dirs.push((sq[2], vec![unit(1.0, 1.0), unit(0.6, 0.8), unit(0.8, 0.6)]));
+            corner_dirs.push((sq[3], vec![unit(-1.0, 1.0), unit(-0.6, 0.8), unit(-0.8, 0.6)]));
+        } else {
+            corner_dirs.push((open[1], vec![unit(1.0, -1.0), unit(0.6, -0.8), unit(0.8, -0.6)]));
+            // beyond the start (edge direction +x, normal -y) and beyond the end (edge direction +y, normal +x)
+            corner_dirs.push((open[0], vec![unit(-1.0, 0.0), unit(-1.0, -1.0), unit(-1.0, 1.0), unit(-0.6, -0.8), unit(-0.8, 0.6), unit(-0.28, 0.96)]));
+            corner_dirs.push((open[2], vec![unit(0.0, 1.0), unit(1.0, 1.0), unit(-1.0, 1.0), unit(0.8, 0.6), unit(-0.6, 0.8), unit(-0.96, 0.28)]));
+        }
+        for (c, dirs) in corner_dirs.iter() { for u in dirs.iter() { for &d in DISTS.iter() { pts.push((c + u * d, 1, d)); } } }
+        // inside, near a corner (closest point on an edge interior)
+        if closed { for &d in DISTS.iter() { pts.push((Point2::new(2.0 * d, d), 0, d)); pts.push((Point2::new(4.0 - 2.0 * d, 4.0 - d), 0, d)); } }
+
+        // 1. one point at a time, through the station query + point_curve2_deviation
+        for (p, kind, d) in pts.iter() {
+            r.case();
+            let st = curve.at_closest_to_point(p);
+            let dv = point_curve2_deviation(&st, p);
+            check_deviation(r, name, verts, &dv, p, *kind, *d, "point_curve2_deviation(at_closest_to_point(p), p)");
+        }
+        // 2. all at once: one deviation per measured point, in order, and the set's extremes are those of its contents
+        let all: Vec<Point2> = pts.iter().map(|t| t.0).collect();
+        let set = line_surface_deviations(&curve, &all, None);
+        r.case();
+        r.check(set.len() == all.len(), "line deviations: one deviation per measured point without an interval", || name.to_string());
+        if set.len() == all.len() {
+            for (i, (p, kind, d)) in pts.iter().enumerate() { check_deviation(r, name, verts, &set[i], p, *kind, *d, "line_surface_deviations(.., None)"); }
+            let held: Vec<f64> = (0..set.len()).map(|i| set[i].deviation).collect();
+            let bmax = held.iter().cloned().fold(f64::NEG_INFINITY, f64::max);
+            let bmin = held.iter().cloned().fold(f64::INFINITY, f64::min);
+            r.check(set.max().map(|m| m.deviation) == Some(bmax) && set.min().map(|m| m.deviation) == Some(bmin),
+                    "line deviations: the returned set reports the true extremes of its contents", || name.to_string());
+        }
+        // 3. with an interval of lengths along the curve: exactly the points whose closest station lies in it, in order
+        for (lo, hi) in [(1.0, 7.0), (0.0, 4.0), (5.0, 5.5), (100.0, 200.0)] {
+            r.case();
+            let iv = Interval::new(lo, hi);
+            let set = line_surface_deviations(&curve, &all, Some(iv));
+            let keep: Vec<usize> = (0..all.len()).filter(|&i| { let l = curve.at_closest_to_point(&all[i]).length_along(); lo <= l && l <= hi }).collect();
+            let how = || format!("{} interval [{}, {}]", name, lo, hi);
+            r.check(set.len() == keep.len(), "line deviations: exactly the points whose closest station lies in the interval are kept", how);
+            if set.len() == keep.len() {
+                let mut same = true;
+                for (k, &i) in keep.iter().enumerate() {
+                    let one = point_curve2_deviation(&curve.at_closest_to_point(&all[i]), &all[i]);
+                    same &= set[k].deviation == one.deviation && set[k].surface.point == one.surface.point;
+                }
+                r.check(same, "line deviations: kept deviations are the point deviations, in input order", how);
+            }
+        }
+    }
+}
+
+// ------------------------------------------------------------------------------------------------ (d) mesh deviations
+/// brute force on the box [0,s]^3: closest surface point, distance, outward normals of the faces containing it
+fn closest_on_box(s: f64, p: &Point3) -> (Point3, f64, Vec<Vector3>) {
+    let inside = (0..3).all(|k| p[k] > 0.0 && p[k] < s);
+    let mut q = *p;
+    if inside {
+        // nearest face
+        let mut best = f64::INFINITY; let mut bk = 0; let mut hi = false;
+        for k in 0..3 { if p[k] < best { best = p[k]; bk = k; hi = false; } if s - p[k] < best { best = s - p[k]; bk = k; hi = true; } }
+        q[bk] = if hi { s } else { 0.0 };
+    } else {
+        for k in 0..3 { q[k] = p[k].clamp(0.0, s); }
+    }
+    let mut normals = vec![];
+    for k in 0..3 {
+        if q[k] == 0.0 { let mut n = Vector3::zeros(); n[k] = -1.0; normals.push(n); }
+        if q[k] == s { let mut n = Vector3::zeros(); n[k] = 1.0; normals.push(n); }
+    }
+    (q, (p - q).norm(), normals)
+}
+
+fn mesh_deviations(r: &mut Report) {
+    let s = 4.0;
+    let mesh = Mesh::create_box(s, s, s, false);
+    let unit = |x: f64, y: f64, z: f64| Vector3::new(x, y, z).normalize();
+    // (point, kind, nominal offset, outside?)   kind 0 = off a face interior along its normal, 1 = off a box edge / corner
+    let mut pts: Vec<(Point3, u8, f64, bool)> = vec![];
+    for k in 0..3usize { for hi in [false, true] {
+        let mut n = Vector3::zeros(); n[k] = if hi { 1.0 } else { -1.0 };
+        for (u, v) in [(2.0, 2.0), (1.5, 2.5)] {
+            let mut foot = Point3::new(0.0, 0.0, 0.0);
+            foot[k] = if hi { s } else { 0.0 }; foot[(k + 1) % 3] = u; foot[(k + 2) % 3] = v;
+            for &d in DISTS.iter() { pts.push((foot + n * d, 0, d, true)); pts.push((foot - n * d, 0, d, false)); }
+        }
+    } }
+    // corners: outward diagonal and two other directions of the outer cone; box edges: outward diagonal
+    for cx in [0.0, s] { for cy in [0.0, s] { for cz in [0.0, s] {
+        let sg = |c: f64| if c == 0.0 { -1.0 } else { 1.0 };
+        let c = Point3::new(cx, cy, cz);
+        for u in [unit(sg(cx), sg(cy), sg(cz)), unit(sg(cx) * 2.0, sg(cy) * 2.0, sg(cz)), unit(sg(cx) * 0.6, sg(cy) * 0.8, 0.0)] {
+            for &d in DISTS.iter() { pts.push((c + u * d, 1, d, true)); }
+        }
+    } } }
+    for &d in DISTS.iter() {
+        pts.push((Point3::new(s, s, 1.5) + unit(1.0, 1.0, 0.0) * d, 1, d, true));
+        pts.push((Point3::new(0.0, 2.5, s) + unit(-0.6, 0.0, 0.8) * d, 1, d, true));
+        pts.push((Point3::new(1.0, 0.0, 0.0) + unit(0.0, -0.8, -0.6) * d, 1, d, true));
+    }
+    for (p, kind, d_nom, outside) in pts.iter() {
+        let (cp, dist, normals) = closest_on_box(s, p);
+        let w = p - cp;
+        for mode in 0..2 {
+            r.case();
+            let m = if mode == 0 { DistMode::ToPoint } else { DistMode::ToPlane };
+            let dv = mesh.measure_point_deviation(p, m);
+            let u = dv.direction.into_inner();
+            let val = dv.value();
+            let how = || format!("box [0,4]^3, measured point {:?} (nominal offset {:?}, {}), mode {}: reference {:?}, direction {:?}, value {:?}",
+                p.coords.as_slice(), d_nom, if *outside { "outside" } else { "inside" }, if mode == 0 { "ToPoint" } else { "ToPlane" },
+                dv.a.coords.as_slice(), u.as_slice(), val);
+            r.check(near((dv.a - cp).norm(), 0.0), "mesh deviation: the reference point is the closest point of the nominal surface", how);
+            r.check(dv.b == *p, "mesh deviation: the measured point is kept", how);
+            r.check(near(u.norm(), 1.0), "mesh deviation: the direction is a unit vector", how);
+            r.check(near(val, u.dot(&(dv.b - dv.a))), "mesh deviation: value equals the projection of b-a on the direction", how);
+            if mode == 0 {
+                let coincident = dist < 1e-6 && *kind == 1;
+                if coincident {
+                    r.check((val.abs() - dist).abs() < 1e-6, "mesh deviation (point mode): within 1e-6 of a box edge / corner the magnitude is within 1e-6 of the closest distance", how);
+                } else {
+                    r.check(near(val.abs(), dist), "mesh deviation (point mode): magnitude equals the closest distance", how);
+                    r.check(near((dv.a + u * val - p).norm(), 0.0), "mesh deviation (point mode): reference + direction * value reconstructs the measured point", how);
+                }
+                // side of the outward normal of every face that contains the closest point
+                let tiny = 1e-9 * dist;
+                if normals.iter().all(|n| n.dot(&w) > tiny) { r.check(val > 0.0, "mesh deviation (point mode): positive on the outward-normal side", how); }
+                else if normals.iter().all(|n| n.dot(&w) < -tiny) { r.check(val < 0.0, "mesh deviation (point mode): negative on the inner side", how); }
+                else if *outside && dist >= 1e-6 {
+                    // outside the box but in the plane of one of the faces meeting at the closest point
+                    r.check(val > 0.0, "mesh deviation (point mode): a point outside the solid, in the plane of one adjacent face, is positive", how);
+                }
+            } else {
+                // the direction is the outward normal of a face that contains the closest point
+                let on_face = normals.iter().any(|n| near((n - u).norm(), 0.0));
+                r.check(on_face, "mesh deviation (plane mode): measured along the outward normal at the closest point", how);
+                r.check(near(val.abs(), u.dot(&w).abs()), "mesh deviation (plane mode): magnitude equals the normal component of the offset", how);
+                let side = u.dot(&w);
+                if on_face && side > 1e-9 * dist { r.check(val > 0.0, "mesh deviation (plane mode): positive on the outward-normal side", how); }
+                if on_face && side < -1e-9 * dist { r.check(val < 0.0, "mesh deviation (plane mode): negative on the inner side", how); }
+                if *kind == 0 {
+                    r.check(near(val.abs(), dist), "mesh deviation (plane mode): off a face interior the normal component is the closest distance", how);
+                    r.check(near((dv.a + u * val - p).norm(), 0.0), "mesh deviation (plane mode): off a face interior reference + direction * value reconstructs the measured point", how);
+                }
+            }
+        }
+    }
+}
+
+pub fn run() -> Option<Report> {
+    let mut r = Report::new("deviation sets: all push histories of length <= 5 over 7 values incl. ties and one-ulp neighbours, from default() and new(prefix); \
+tolerance maps: all ascending tables of length 0..=4 over 5 breakpoints, x at breakpoints, one-ulp neighbours, midpoints, below the start, beyond the end; \
+point clouds: all sequences of <= 3 operations (append / merge / create_from_indices, every presence combination) from 12 starts, try_new over all presence/length combinations; \
+distances on integer points with 9 directions; curve / mesh deviations on a square of side 4, an open polyline and a 4x4x4 box at offsets 1e-7, 1e-5, 1e-4, 1e-2, 1 on both sides, off corners and beyond ends");
+    deviation_sets(&mut r);
+    tolerance_maps(&mut r);
+    point_clouds(&mut r);
+    distances(&mut r);
+    curve_deviations(&mut r);
+    mesh_deviations(&mut r);
+    Some(r)
+}
